@@ -17,7 +17,7 @@ var (
 	bigZero = big.NewInt(0)
 	bigOne  = big.NewInt(1)
 	ratZero = new(big.Rat)
-	ratOne  = big.NewRat(1, 1)
+	ratOne  = new(big.Rat).SetInt64(1)
 )
 
 func pow2(n uint) *big.Int { return new(big.Int).Lsh(bigOne, n) }
@@ -149,6 +149,22 @@ func (f *Form) Vars() []int {
 	return out
 }
 
+// ratMul and ratAdd avoid the gcd normalisation of big.Rat for integers (the
+// common case).
+func ratMul(a, b *big.Rat) *big.Rat {
+	if a.IsInt() && b.IsInt() {
+		return new(big.Rat).SetInt(new(big.Int).Mul(a.Num(), b.Num()))
+	}
+	return new(big.Rat).Mul(a, b)
+}
+
+func ratAdd(a, b *big.Rat) *big.Rat {
+	if a.IsInt() && b.IsInt() {
+		return new(big.Rat).SetInt(new(big.Int).Add(a.Num(), b.Num()))
+	}
+	return new(big.Rat).Add(a, b)
+}
+
 // combine returns f + s*g.
 func (f *Form) combine(g *Form, s *big.Rat) *Form {
 	if s.Sign() == 0 {
@@ -159,9 +175,9 @@ func (f *Form) combine(g *Form, s *big.Rat) *Form {
 		if unit {
 			return c
 		}
-		return new(big.Rat).Mul(c, s)
+		return ratMul(c, s)
 	}
-	out := &Form{c: new(big.Rat).Add(f.c, mul(g.c))}
+	out := &Form{c: ratAdd(f.c, mul(g.c))}
 	if len(g.ts) == 0 {
 		out.ts = f.ts
 		return out
@@ -177,7 +193,7 @@ func (f *Form) combine(g *Form, s *big.Rat) *Form {
 			ts = append(ts, term{g.ts[j].v, mul(g.ts[j].c)})
 			j++
 		default:
-			c := new(big.Rat).Add(f.ts[i].c, mul(g.ts[j].c))
+			c := ratAdd(f.ts[i].c, mul(g.ts[j].c))
 			if c.Sign() != 0 {
 				ts = append(ts, term{f.ts[i].v, c})
 			}
@@ -189,7 +205,7 @@ func (f *Form) combine(g *Form, s *big.Rat) *Form {
 	return out
 }
 
-var ratMinusOne = big.NewRat(-1, 1)
+var ratMinusOne = new(big.Rat).SetInt64(-1)
 
 func (f *Form) Add(g *Form) *Form { return f.combine(g, ratOne) }
 func (f *Form) Sub(g *Form) *Form { return f.combine(g, ratMinusOne) }
@@ -202,9 +218,9 @@ func (f *Form) Scale(s *big.Rat) *Form {
 	if s.Cmp(ratOne) == 0 {
 		return f
 	}
-	out := &Form{c: new(big.Rat).Mul(f.c, s), ts: make([]term, len(f.ts))}
+	out := &Form{c: ratMul(f.c, s), ts: make([]term, len(f.ts))}
 	for i, t := range f.ts {
-		out.ts[i] = term{t.v, new(big.Rat).Mul(t.c, s)}
+		out.ts[i] = term{t.v, ratMul(t.c, s)}
 	}
 	return out
 }
